@@ -8,8 +8,8 @@
 From Coq Require Import Lia ZArith String.
 From PG Require Import Lib.Str Lib.StrFacts Lib.Dec Lib.DecFacts Lib.Crlf Lib.CrlfFacts Lib.HtmlEsc Lib.HtmlEscFacts
      Lib.Bytes Lib.Percent Lib.PercentFacts Lib.Utf8 Lib.Utf8Facts Lib.PercentStr
-     Model.Entry Model.Render0 Model.Copy Model.Wml Model.RenderUrl Model.ClientView
-     Proofs.RenderFacts Proofs.TokFacts.
+     Model.Entry Model.Render0 Model.Copy Model.Wml Model.GopherPlus Model.RenderUrl Model.ClientView
+     Proofs.RenderFacts Proofs.TokFacts Proofs.C15Facts.
 Local Open Scope N_scope.
 
 (* ---------- escape_safe ---------- *)
@@ -498,84 +498,23 @@ Theorem headers_ok_is_copy lastmod e adjust :
   http_ok_head adjust lastmod e = http_header_lines lastmod (adjust (e_mimetype e)).
 Proof. reflexivity. Qed.
 
-(* ---------- Gopher+ blocks ---------- *)
-Lemma forallb_rev {A} (f : A -> bool) l : forallb f (rev l) = forallb f l.
+(* ---------- Gopher+ blocks (the builder is Model/GopherPlus.v, its line facts Proofs/C15Facts.v) ---------- *)
+(* a reader of CRLF-terminated lines gets back exactly the header line and the body lines of an
+   extended-attribute block, and no body line reads as a block header, whatever the value *)
+Theorem gplus_block_reads keep name v :
+  no_lf name ->
+  split_crlf (GopherPlus.ea_block keep name v) = (GopherPlus.ea_block_lines keep name v, []) /\
+  Forall (fun l => exists x, l = GopherPlus.SP :: x /\ no_break x /\ GopherPlus.parse_header l = None)
+         (tl (GopherPlus.ea_block_lines keep name v)).
 Proof.
-  induction l as [|x l IH]; [reflexivity|]. simpl. rewrite forallb_app, IH. simpl.
-  rewrite andb_true_r. apply andb_comm.
+  intros NN.
+  assert (B : Forall (fun l => exists x, l = GopherPlus.SP :: x /\ no_break x /\ no_lf l /\ GopherPlus.parse_header l = None)
+                     (tl (GopherPlus.ea_block_lines keep name v))).
+  { apply Forall_forall. intros l H. exact (C15Facts.gplus_lines_never_headers keep name v l H). }
+  split.
+  - rewrite C15Facts.ea_block_unlines. apply split_crlf_unlines.
+    unfold GopherPlus.ea_block_lines in *. cbn [tl] in B. constructor.
+    + apply no_lf_cons. split; [discriminate|]. apply no_lf_app. split; [exact NN|reflexivity].
+    + eapply Forall_impl; [|exact B]. intros l (x & _ & _ & L & _). exact L.
+  - eapply Forall_impl; [|exact B]. intros l (x & E & NB & _ & PH). eauto.
 Qed.
-
-(* one step of splitlines at a line break, with the "\r\n" test written as booleans *)
-Definition after_break (x : N) (s : str) : str :=
-  if x =? 13 then match s with y :: s' => if y =? 10 then s' else s | [] => s end else s.
-Lemma splitlines_aux_break cur x s :
-  is_linebreak x = true -> splitlines_aux cur (x :: s) = rev cur :: splitlines_aux [] (after_break x s).
-Proof.
-  intros B. cbn [splitlines_aux]. rewrite B. unfold after_break.
-  destruct x as [|p]; [reflexivity|].
-  destruct p as [q|q|]; try reflexivity.
-  destruct q as [r|r|]; try reflexivity.
-  destruct r as [t|t|]; try reflexivity.
-  destruct t as [t|t|]; try reflexivity.
-  (* x = 13 *)
-  destruct s as [|y s]; [reflexivity|].
-  destruct y as [|p]; [reflexivity|].
-  destruct p as [q|q|]; try reflexivity.
-  destruct q as [r|r|]; try reflexivity.
-  destruct r as [t|t|]; try reflexivity.
-  destruct t as [t|t|]; reflexivity.
-Qed.
-Lemma splitlines_aux_plain cur x s :
-  is_linebreak x = false -> splitlines_aux cur (x :: s) = splitlines_aux (x :: cur) s.
-Proof. intros B. cbn [splitlines_aux]. now rewrite B. Qed.
-
-Lemma splitlines_aux_no_break n : forall s cur, (List.length s <= n)%nat ->
-  forallb (fun c => negb (is_linebreak c)) cur = true ->
-  Forall (fun l => forallb (fun c => negb (is_linebreak c)) l = true) (splitlines_aux cur s).
-Proof.
-  induction n as [|n IH]; intros s cur L C.
-  - destruct s; [|simpl in L; lia]. simpl. destruct cur; constructor; [|constructor].
-    rewrite forallb_rev. exact C.
-  - destruct s as [|x s].
-    + simpl. destruct cur; constructor; [|constructor]. rewrite forallb_rev. exact C.
-    + simpl in L. destruct (is_linebreak x) eqn:B.
-      * rewrite (splitlines_aux_break _ _ _ B). constructor; [rewrite forallb_rev; exact C|].
-        apply IH; [|reflexivity]. unfold after_break.
-        destruct (x =? 13); [|lia]. destruct s as [|y s]; [simpl; lia|].
-        destruct (y =? 10); simpl in *; lia.
-      * rewrite (splitlines_aux_plain _ _ _ B). apply IH; [lia|]. simpl. now rewrite B, C.
-Qed.
-
-Lemma splitlines_no_break s : Forall (fun l => forallb (fun c => negb (is_linebreak c)) l = true) (splitlines s).
-Proof. apply (splitlines_aux_no_break (List.length s)); [lia|reflexivity]. Qed.
-
-(* the reference reader of an attribute listing: lines end with CRLF; a block header starts with "+" *)
-Definition is_block_header (l : str) : bool := match l with 43 :: _ => true | _ => false end.
-Definition gplus_body (value : str) : str := concat (map (fun l => l ++ CRLF) (gplus_block_lines value)).
-
-Theorem gplus_lines_safe value :
-  Forall (fun l => exists r, l = 32 :: r /\ forallb (fun c => negb (is_linebreak c)) r = true)
-         (gplus_block_lines value).
-Proof.
-  unfold gplus_block_lines. apply Forall_forall. intros l H. apply in_map_iff in H as (r & <- & H).
-  exists r. split; [reflexivity|].
-  pose proof (splitlines_no_break value) as F. rewrite Forall_forall in F. now apply F.
-Qed.
-
-Theorem gplus_body_never_header value :
-  split_crlf (gplus_body value) = (gplus_block_lines value, []) /\
-  Forall (fun l => is_block_header l = false) (gplus_block_lines value).
-Proof.
-  pose proof (gplus_lines_safe value) as S. split.
-  - apply (split_crlf_unlines (gplus_block_lines value)).
-    eapply Forall_impl; [|exact S]. intros l (r & -> & B). unfold no_lf. cbn [mem_N]. simpl.
-    clear -B. induction r as [|c r IH]; [reflexivity|]. simpl in B. apply andb_true_iff in B as [B1 B2].
-    cbn [mem_N]. rewrite (IH B2), orb_false_r.
-    destruct (LF =? c) eqn:E; [|reflexivity]. apply N.eqb_eq in E. subst c. discriminate B1.
-  - eapply Forall_impl; [|exact S]. intros l (r & -> & _). reflexivity.
-Qed.
-
-(* the block itself: header line, then the body *)
-Theorem gplus_ea_block_shape name value :
-  gplus_ea_block name value = [43] ++ name ++ lit ":" ++ CRLF ++ gplus_body value.
-Proof. reflexivity. Qed.
